@@ -839,15 +839,19 @@ class ArgumentParser(ParserDeprecations, ActionsContainer, ArgumentLinking, argp
                 val = subcfg[key]
                 default = subdefaults[key]
                 class_object_val = None
+                class_path_differs = False
                 if is_subclass_spec(val):
                     if not isinstance(default, dict) or val["class_path"] != default.get("class_path"):
+                        class_path_differs = True
                         with parser_context(parent_parser=self):
                             parser = ActionTypeHint.get_class_parser(val["class_path"])
                         default = {"init_args": parser.get_defaults().as_dict()}
                     class_object_val = val
                     val = val.get("init_args")
                     default = default.get("init_args")
-                if val == default:
+                if val == default and class_path_differs:
+                    class_object_val.pop("init_args", None)  # only the class_path is not default
+                elif val == default:
                     del subcfg[key]
                 elif isinstance(val, dict) and isinstance(default, dict):
                     self._dump_delete_default_entries(val, default)
